@@ -19,7 +19,7 @@ from harness import tasks                         # noqa: E402
 
 FN = {'ok': tasks.ok, 'boom': tasks.boom, 'work': tasks.work,
       'sleepy': tasks.sleepy, 'tenfold': tasks.tenfold,
-      'inexc': tasks.work_in_except}
+      'inexc': tasks.work_in_except, 'sleepy_catch': tasks.sleepy_catch}
 
 
 def child_launcher(popen, process_obj, p):
@@ -36,7 +36,8 @@ class Scenario:
             self.choices, horizon=1000.0 + cfg.get('horizon', 80.0),
             timer_deviation=cfg.get('timer_deviation', False),
             max_steps=cfg.get('max_steps', 60000),
-            delay_model=cfg.get('delay_model', True))
+            delay_model=cfg.get('delay_model', True),
+            rr=cfg.get('rr', False))
         self.sched.intr_handler = vproc.run_pending_signals
         if cfg.get('optrace'):
             self.sched.optrace = []
@@ -120,6 +121,56 @@ class Scenario:
                 self.snapshot('after_terminate')
             elif op == 'grow':
                 pool.grow(int(arg or 1))
+            elif op == 'shrink':
+                try:
+                    pool.shrink(int(arg or 1))
+                except ValueError:
+                    res['shrink_refused'] = True
+            elif op == 'killworker':
+                # an operator's termination signal to one worker
+                import os
+                os.kill(pool._pool[int(arg or 0)].pid, signal.SIGTERM)
+            elif op == 'tjob_soft':
+                k, fn, a, h = handles[int(arg)]
+                if h._worker_pid:
+                    pool.terminate_job(h._worker_pid, signal.SIGUSR1)
+            elif op == 'rounds':
+                # wait until supervision has completed N more full rounds
+                # (virtual time alone proves nothing: a thread can be starved)
+                import time
+                if 'rounds' not in res:
+                    res['rounds'] = [0]
+                    orig_mp = pool._maintain_pool
+
+                    def counted():
+                        r_ = orig_mp()
+                        res['rounds'][0] += 1
+                        return r_
+                    pool._maintain_pool = counted
+                # first let every worker that was told to exit really exit
+                # (a starved process proves nothing either)
+                w_ = vos.world()
+                for _ in range(300):
+                    if not [1 for (_s, pid_, sig_) in w_.kills
+                            if sig_ == int(signal.SIGTERM) and
+                            pid_ in w_.procs and
+                            w_.procs[pid_].state == 'running']:
+                        break
+                    time.sleep(0.1)
+                target = res['rounds'][0] + int(arg or 2)
+                for _ in range(200):
+                    if res['rounds'][0] >= target:
+                        break
+                    time.sleep(0.1)
+            elif op == 'size':
+                # after supervision had time to act: live workers vs size
+                w_ = vos.world()
+                res['size_check'] = (
+                    pool._processes,
+                    sorted(p.pid for p in pool._pool
+                           if w_.procs[p.pid].state == 'running'),
+                    sorted(pid for pid, p in w_.procs.items()
+                           if not p.is_main and p.state == 'running'))
             elif op == 'tjob':
                 k, fn, a, h = handles[int(arg)]
                 pid = h._worker_pid
@@ -194,7 +245,21 @@ class Scenario:
             try:
                 u = sched.spawn(self.user, 'user', pid=MAIN_PID)
                 u.local['is_main'] = True
-                sched.run()
+                lp = self.cfg.get('linepoints')
+                if lp:
+                    # plain attributes shared between the user thread and the
+                    # pool's threads (e.g. Pool._processes): every line of
+                    # the named Pool methods is a scheduling point
+                    from vmc import linepoints
+                    linepoints.enable(linepoints.codes_of(
+                        *[getattr(bp.Pool, n) for n in lp]))
+                    sched.linepoints = True
+                try:
+                    sched.run()
+                finally:
+                    if lp:
+                        sched.linepoints = False
+                        linepoints.disable()
                 self.res['status'] = sched.status
                 self._supervisor_grace(sched)
                 self.res['user'] = (u.state, u.result, repr(u.exc)
@@ -246,9 +311,13 @@ def default_outcome(sc):
 
 
 def stuck_signature(sc):
-    """Classify a hang by its root cause if it is a listed finding."""
-    for d in sc.res.get('describe', ()):
-        pass
+    """Classify a hang by its root cause if it is a listed finding: a
+    termination handler ran inside SemLock.__enter__ (the lock just taken is
+    never released, F15) and somebody is now parked on a semaphore."""
+    r = sc.res
+    if r.get('sig_after_acquire') and any(
+            'parked sem.acquire' in d for d in r.get('describe', ())):
+        return 'F15:signal-inside-lock-enter'
     return None
 
 
@@ -267,8 +336,10 @@ def c07_oracle(sc):
     if r['errors']:
         return 'exception in a pool/worker thread: %r' % (r['errors'],)
     if r['status'] != 'done' or r['user'][0] != 'done':
-        return ('close()+join() did not return: %s, user at %r; threads: %r'
-                % (r['status'], r['user'][3], r['describe']))
+        return ('close()+join() did not return: %s, user at %r; threads: %r; '
+                'handlers run inside a lock\'s __enter__: %r'
+                % (r['status'], r['user'][3], r['describe'],
+                   r['sig_after_acquire']), stuck_signature(sc))
     if r['user'][2]:
         return 'user program raised %s' % r['user'][2]
     snap = r.get('after_join')
@@ -343,11 +414,9 @@ def c08_oracle(sc):
     if r['errors']:
         return 'exception in a pool/worker thread: %r' % (r['errors'],)
     if r['status'] != 'done' or r['user'][0] != 'done':
-        sig = None
-        if r['sig_after_acquire']:
-            # a worker's termination handler ran inside SemLock.__enter__:
-            # the lock it had just taken is never released (F15)
-            sig = 'F15:signal-inside-lock-enter'
+        # a worker's termination handler ran inside SemLock.__enter__:
+        # the lock it had just taken is never released (F15)
+        sig = stuck_signature(sc)
         return ('terminate() did not return: %s (virtual time %.1f), user at '
                 '%r; threads: %r; handlers run inside a lock\'s __enter__: %r'
                 % (r['status'], r['now'] - 1000.0, r['user'][3],
@@ -386,8 +455,14 @@ def c08_oracle(sc):
 
 def make_runner(cfg):
     cfg = dict(cfg)
-    cfg['oracle'] = {'c07': c07_oracle, 'c08': c08_oracle}[cfg['oracle']] \
-        if isinstance(cfg['oracle'], str) else cfg['oracle']
+    if isinstance(cfg['oracle'], str):
+        if ':' in cfg['oracle']:
+            import importlib
+            mod, _, fn = cfg['oracle'].partition(':')
+            cfg['oracle'] = getattr(importlib.import_module(mod), fn)
+        else:
+            cfg['oracle'] = {'c07': c07_oracle,
+                             'c08': c08_oracle}[cfg['oracle']]
 
     def run(prefix, expect=None):
         return Scenario(cfg, prefix).run()
@@ -395,9 +470,14 @@ def make_runner(cfg):
 
 
 def explore_cfg(arg):
-    cfg, bound, cap = arg
+    """(cfg, bound, cap[, opts]); opts: ``frontier=N`` -- expand breadth
+    first until N unexplored subtree roots exist and return them under
+    'roots'; ``root=prefix`` -- explore only the subtree below ``prefix``."""
+    cfg, bound, cap = arg[:3]
+    opts = arg[3] if len(arg) > 3 else {}
     from harness import l1
     import gc
+    import collections
     l1._no_final_gc()
     # Cyclic GC at an arbitrary allocation would run Connection.__del__ (a
     # virtual close = a scheduling point) at a moment that is not a function
@@ -406,14 +486,17 @@ def explore_cfg(arg):
     run = make_runner(cfg)
     st = explore.Stats()
     found = {}
-    stack = [[]]
+    want = opts.get('frontier')
+    stack = collections.deque([list(opts.get('root', []))])
     import time as _rt
     t_end = _rt.time() + cfg.get('budget_s', 900)
     while stack:
+        if want and len(stack) >= want:
+            break
         if (cap and st.executions >= cap) or _rt.time() > t_end:
             st.capped = True
             break
-        p = stack.pop()
+        p = stack.popleft() if want else stack.pop()
         x = run(p, None)
         explore._account(st, x, p)
         if st.executions % 25 == 0:
@@ -427,10 +510,46 @@ def explore_cfg(arg):
             if len([k for k in found if not k[1]]) > 2:
                 break
             continue
-        stack.extend(reversed(explore.children(x, len(p), bound)))
+        kids = explore.children(x, len(p), bound)
+        stack.extend(kids if want else reversed(kids))
     d = st.as_dict()
     d['found'] = list(found.values())
+    if want:
+        d['roots'] = [] if any(not f[2] for f in d['found']) else list(stack)
     return d
+
+
+def explore_split(cfgs, want=40):
+    """Each (cfg, bound, cap) explored over the whole par pool: the first
+    levels breadth first in one worker, the subtrees below in all of them.
+    Same coverage as explore_cfg, one merged dict per config."""
+    from vmc import par
+    heads = par.pmap('harness.l3:explore_cfg',
+                     [(c, b, cap, {'frontier': want}) for c, b, cap in cfgs])
+    jobs, owner = [], []
+    for i, ((c, b, cap), h) in enumerate(zip(cfgs, heads)):
+        roots = h.pop('roots')
+        # subtrees are uneven: each may use up to 3x its even share
+        per = max(200, 3 * cap // max(1, len(roots))) if cap else cap
+        for r in roots:
+            jobs.append((c, b, per, {'root': r}))
+            owner.append(i)
+    subs = par.pmap('harness.l3:explore_cfg', jobs)
+    out = []
+    for i, h in enumerate(heads):
+        st = explore.Stats()
+        st.merge(h)
+        found = {(f[0].split(':')[0][:60], f[2]): f for f in h['found']}
+        for o, d in zip(owner, subs):
+            if o == i:
+                st.merge(d)
+                for f in d['found']:
+                    found.setdefault((f[0].split(':')[0][:60], f[2]), f)
+        m = st.as_dict()
+        m['found'] = list(found.values())
+        m['subtrees'] = owner.count(i)
+        out.append(m)
+    return out
 
 
 def replay(rp):
